@@ -26,6 +26,15 @@ def pipelines(maxlen):
     return [p for p in out if p], res
 
 
+def design(tier, seed):
+    from .. import tlc
+
+    r = tlc.run_model('PassLemmas', 'PassLemmas.cfg', workers=16, tag='C18-lemma', xmx='6g')
+    tlc.cleanup(r['workdir'])
+    return {'states': r['distinct'], 'transitions': r['generated'],
+            'runs': [f'PassLemmas (algorithm models RRG/RRGI/MUO/MDG/MEG of Passes.tla satisfy the C03 and C18 predicates on every circuit of U(2,2,10 types,3) x 3 output choices): {r["distinct"]} states, {r["wall_s"]:.1f}s']}
+
+
 def sources(tier, seed, ctx):
     circs, rng = P.circuit_sources(tier, seed, ctx, 18, 4000, 50000, 400, 6000)
     pipes, res = pipelines(3 if tier == 'quick' else 4)
